@@ -11,6 +11,12 @@
 
 #include <fcppt/move_clear.hpp>
 #include <fcppt/algorithm/fold.hpp>
+#include <fcppt/algorithm/fold_break.hpp>
+#include <fcppt/algorithm/loop_break.hpp>
+#include <fcppt/algorithm/map_concat.hpp>
+#include <fcppt/algorithm/map_optional.hpp>
+#include <fcppt/loop.hpp>
+#include <fcppt/function_impl.hpp>
 #include <fcppt/algorithm/map.hpp>
 #include <fcppt/algorithm/map_array.hpp>
 #include <fcppt/algorithm/map_tuple.hpp>
@@ -18,6 +24,7 @@
 #include <fcppt/tuple/invoke.hpp>
 #include <fcppt/algorithm/reverse.hpp>
 #include <fcppt/array/append.hpp>
+#include <fcppt/array/apply.hpp>
 #include <fcppt/array/from_range.hpp>
 #include <fcppt/array/join.hpp>
 #include <fcppt/array/make.hpp>
@@ -34,10 +41,20 @@
 #include <fcppt/container/grid/map.hpp>
 #include <fcppt/container/grid/object.hpp>
 #include <fcppt/container/grid/resize.hpp>
+#include <fcppt/container/grid/static_row_type.hpp>
 #include <fcppt/container/tree/object_impl.hpp>
 #include <fcppt/either/apply.hpp>
 #include <fcppt/either/bind.hpp>
+#include <fcppt/either/construct.hpp>
+#include <fcppt/either/to_exception.hpp>
+#include <fcppt/either/error.hpp>
+#include <fcppt/either/error_from_optional.hpp>
 #include <fcppt/either/failure_opt.hpp>
+#include <fcppt/either/first_success.hpp>
+#include <fcppt/either/loop.hpp>
+#include <fcppt/either/make_failure.hpp>
+#include <fcppt/either/make_success.hpp>
+#include <fcppt/either/sequence_error.hpp>
 #include <fcppt/either/from_optional.hpp>
 #include <fcppt/either/join.hpp>
 #include <fcppt/either/map.hpp>
@@ -56,14 +73,20 @@
 #include <fcppt/optional/make.hpp>
 #include <fcppt/optional/map.hpp>
 #include <fcppt/optional/maybe.hpp>
+#include <fcppt/optional/maybe_multi.hpp>
+#include <fcppt/optional/maybe_void.hpp>
+#include <fcppt/optional/maybe_void_multi.hpp>
 #include <fcppt/optional/sequence.hpp>
 #include <fcppt/optional/to_container.hpp>
+#include <fcppt/optional/to_exception.hpp>
 #include <fcppt/record/element.hpp>
 #include <fcppt/record/make_label.hpp>
 #include <fcppt/record/map.hpp>
 #include <fcppt/record/multiply_disjoint.hpp>
 #include <fcppt/record/object_impl.hpp>
 #include <fcppt/record/permute.hpp>
+#include <fcppt/tuple/apply.hpp>
+#include <fcppt/tuple/concat.hpp>
 #include <fcppt/tuple/from_array.hpp>
 #include <fcppt/tuple/map.hpp>
 #include <fcppt/tuple/push_back.hpp>
@@ -73,6 +96,8 @@
 
 #include <deque>
 #include <list>
+#include <map>
+#include <stdexcept>
 #include <utility>
 #include <vector>
 
@@ -197,6 +222,72 @@ void probe()
   sink(t.pop_front());
   sink(t.release(t.begin()));
   sink(tree{std::move(t)});
+}
+#elif PROBE_GROUP == 7 // round 3: second argument positions, void / n-ary forms, error combinators, further containers
+void probe()
+{
+  // fold / fold_break: range elements (through a move range) and the state reach the function as rvalues
+  sink(fcppt::algorithm::fold(fcppt::container::make_move_range(vec{}), vec{}, [](M &&x, vec &&s)
+  {
+    s.push_back(std::move(x));
+    return std::move(s);
+  }));
+  // (fold_break hands the element over as an lvalue even for a move range - unlike fold; observation in the notes)
+  sink(fcppt::algorithm::fold_break(fcppt::container::make_move_range(vec{}), vec{}, [](M &x, vec &&s)
+  {
+    s.push_back(std::move(x));
+    return std::make_pair(fcppt::loop::continue_, std::move(s));
+  }));
+  fcppt::algorithm::loop_break(fcppt::container::make_move_range(std::list<M>{}), [](M &&x)
+  {
+    sink(std::move(x));
+    return fcppt::loop::continue_;
+  });
+  sink(fcppt::algorithm::map_concat<vec>(vec{}, [](M const &) { return vec{}; }));
+  sink(fcppt::algorithm::map_optional<vec>(vec{}, [](M const &) { return opt{}; }));
+  fcppt::optional::maybe_void(opt{}, [](M &&x) { sink(std::move(x)); });
+  fcppt::optional::maybe_void_multi([](M &&x, M &&y) { sink(std::move(x)); sink(std::move(y)); }, opt{}, opt{});
+  sink(fcppt::optional::maybe_multi([] { return M(1); }, [](M &&x, M &&) { return std::move(x); }, opt{}, opt{}));
+  sink(fcppt::optional::sequence<fcppt::tuple::object<M, M>>(fcppt::tuple::object<opt, opt>{opt{}, opt{}}));
+  sink(fcppt::either::sequence_error(vec{}, [](M &&x) { return fcppt::either::error<M>{std::move(x)}; }));
+  sink(fcppt::either::error_from_optional(opt{}));
+  sink(fcppt::either::make_success<M2>(M(1)));
+  sink(fcppt::either::make_failure<M>(M2(1)));
+  sink(fcppt::either::loop([] { return eit{M2(1)}; }, [](M &&x) { sink(std::move(x)); }));
+  sink(fcppt::either::first_success(std::vector<fcppt::function<eit()>>{}));
+  sink(fcppt::container::join(std::map<int, M>{}, std::map<int, M>{}));
+  sink(fcppt::container::join(std::vector<vec>{}, std::vector<vec>{}));
+  sink(fcppt::container::join(std::list<M>{}, std::list<M>{}));
+  using grid = fcppt::container::grid::object<M, 2>;
+  using row = fcppt::container::grid::static_row_type<M, 2U>;
+  sink(grid(row{M(1), M(2)}, row{M(3), M(4)}, row{M(5), M(6)}));
+  using tree = fcppt::container::tree::object<M>;
+  tree t{M(1)};
+  t.push_back(M(2));
+  tree u{M(3)};
+  u.push_back(M(4));
+  u = std::move(t);
+  sink(tree{M(5), tree::child_list{}});
+  // n-ary forms whose continuation must receive every element of an rvalue argument as an rvalue
+  using arr2 = fcppt::array::object<M, 2>;
+  sink(fcppt::array::apply([](M &&x, M &&y, M &&z) { sink(std::move(y)); sink(std::move(z)); return std::move(x); },
+                           arr2{M(1), M(2)}, arr2{M(3), M(4)}, arr2{M(5), M(6)}));
+  using tup_mm = fcppt::tuple::object<M, M>;
+  // (tuple::apply is not probed: tuple::get of an rvalue tuple yields a const lvalue, the function never receives an
+  // rvalue there - the library itself does not copy; observation in the notes)
+  sink(fcppt::tuple::concat(tup_mm{M(1), M(2)}, tup_mm{M(3), M(4)}, tup_mm{M(5), M(6)}));
+  sink(fcppt::variant::apply([](auto &&x, auto &&y) { sink(std::move(y)); return var{std::move(x)}; }, var{M(1)}, var{M2(2)}));
+  sink(fcppt::optional::apply([](M &&x, M &&y, M &&z) { sink(std::move(y)); sink(std::move(z)); return std::move(x); }, opt{}, opt{}, opt{}));
+  sink(fcppt::either::apply([](M &&x, M &&y, M &&z) { sink(std::move(y)); sink(std::move(z)); return std::move(x); }, eit{M(1)}, eit{M(2)}, eit{M(3)}));
+  sink(fcppt::optional::to_exception(opt{M(1)}, [] { return std::runtime_error{"none"}; }));
+  sink(fcppt::either::to_exception(eit{M(1)}, [](M2 &&) { return std::runtime_error{"failure"}; }));
+  sink(fcppt::either::construct(true, [] { return M(1); }, [] { return M2(2); }));
+  opt o{M(1)};
+  o = opt{M(2)};
+  var v{M(1)};
+  v = var{M2(2)};
+  eit e{M(1)};
+  e = eit{M2(2)};
 }
 #else
 #error "unknown PROBE_GROUP"
